@@ -1,15 +1,15 @@
 SPECIFICATION Spec
 CONSTANTS
-  P = 1
+  P = 3
   B = 2
-  KK = 1
+  KK = 3
   N1 = 1
-  N2 = 0
-  N3 = 0
+  N2 = 1
+  N3 = 1
   N4 = 0
   NParts <- NPartsDef
-  Clear = FALSE
-  Split = TRUE
+  Clear = TRUE
+  Split = FALSE
   SkelBarrierOnWorld = FALSE
   RootIsLowest = TRUE
   StatusEverywhere = TRUE
